@@ -288,6 +288,7 @@ pub fn run(seed: u64, ntraces: usize) {
             v } else { vec![] };
         let nops = nops + rot_script.len();
         // follow-ups of a successful validation: the same call again, by a stranger, and with another payload hash -- an executed message never validates again
+        let mut ru = Rng::new(seed ^ 0x75a9 ^ ((t as u64) << 20)); let mut nup = (t / 8) as u64 * 3;
         let mut vq: Vec<((Vec<u8>, Vec<u8>, Vec<u8>, Vec<u8>, Vec<u8>), u64)> = vec![];
         for _ in 0..nops {
             let forced_rot = if rot_script.is_empty() { None } else { Some(rot_script.remove(0)) };
@@ -390,6 +391,30 @@ pub fn run(seed: u64, ntraces: usize) {
                 }
             };
             steps.push(json!({"op": opj, "res": step.json}));
+            // upgrade transactions (traces t % 8 == 3 only, driven by a PRNG of their own so that every other trace is what it was):
+            // the owner re-runs the second half of `init` on the existing gateway -- operator argument (zero = keep), signer sets registered
+            // without proof and without the rotation delay, but with every validity / duplicate check; a refused upgrade changes nothing
+            if t % 8 == 3 && ru.chance(1, 2) {
+                let k = nup % 8; nup += 1;
+                let cur_op = g.operator.to_vec(); let u2 = g.users[2].to_vec();
+                let (label, oparg, newsets, pad): (&str, Vec<u8>, Vec<SSet>, usize) = match k {
+                    0 => ("noop", vec![0u8; 32], vec![], 0),
+                    1 => ("operator_only", u2.clone(), vec![], 0),
+                    2 => ("one_fresh_set", vec![0u8; 32], vec![gen_valid_set(&mut ru)], 0),
+                    3 => if let Some(sx) = g.sets.last() { ("duplicate_set", u2.clone(), vec![gen_valid_set(&mut ru), sx.clone()], 0) } else { ("one_fresh_set", vec![0u8; 32], vec![gen_valid_set(&mut ru)], 0) },
+                    4 => { let (_, bad) = gen_bad_set(&mut ru); ("malformed_set", u2.clone(), vec![bad], 0) }
+                    5 => ("two_fresh_sets", cur_op.clone(), vec![gen_valid_set(&mut ru), gen_valid_set(&mut ru)], 0),
+                    6 => ("short_operator", vec![7u8; 31], vec![], 0),
+                    _ => ("fresh_set_padded_weights", vec![0u8; 32], vec![gen_valid_set(&mut ru)], 1),
+                };
+                let mut uargs = vec![oparg.clone()]; for sx in &newsets { uargs.push(sx.encode(pad)); }
+                let ow = g.owner.clone();
+                let stu = g.w.call0(&ow, &g.gw, "upgrade", uargs.clone());
+                if stu.res.result_status == 0 {
+                    if oparg.len() == 32 && oparg.iter().any(|b| *b != 0) { g.operator = VMAddress::new(oparg.clone().try_into().unwrap()); }
+                    if !newsets.is_empty() { g.last_rot = now; } for sx in newsets { g.sets.push(sx); } }
+                steps.push(json!({"op": op_json("upgrade", label.to_string(), &ow, now, json!({"operator": hx(&oparg), "signers": uargs[1..].iter().map(|b| hx(b)).collect::<Vec<_>>()})), "res": stu.json}));
+            }
         }
         let sigtab: Vec<Value> = g.tab.0.iter().map(|(a, b, c)| json!([hx(a), hx(b), hx(c)])).collect();
         println!("{}", json!({"trace": t, "gw": hx(gw.as_bytes()), "init": init, "sigtab": sigtab, "steps": steps}));
